@@ -210,7 +210,8 @@ ADDED = {
  'C03': 'Unknown fields carry values of every JSON kind (string, number, negative, float, bool, null, list, object) at every position; '
         'decoding twice after editing the first result; finalized maintenance records and their entries.',
  'C04': 'File-based direct import next to the string variant, and documents whose nodes name two graphs (must be refused by both); '
-        'failing imports; allocator health is part of every canonical state; states are histories replayed on library-built stores.',
+        'failing imports; allocator health is part of every canonical state; states are histories replayed on library-built stores; graph id and type '
+        'rewrites as events; listings by class (and type) obey the same isolation as single reads.',
  'C05': 'Property bags, merge policies and id updates that contradict a node\'s identity (refused, or carried out with the identity '
         'kept); merge policies for properties only one node has and unknown policies; whole-graph NodeID, per-node GraphID, None for '
         'identity properties; agreement of the two backends on open queries.',
@@ -230,19 +231,24 @@ ADDED = {
  'C12': 'A pool called the empty string; detail fields set to an empty string / list; re-indexing after a change against a '
         'container built from scratch; decoding twice.',
  'C13': 'Delegations written on stitching elements; a second partitioning of the untouched model; loading another model into the '
-        'topology object and partitioning again.',
+        'topology object and partitioning again; parallel links and an isolated stitching node; a delegation that only refers to a pool.',
  'C14': 'Families whose shared ports carry only one kind of delegation, and family F2x whose copies of a shared element differ in a '
-        'plain property (reference: the copy that brought the element in); allocator health in the canonical state.',
+        'plain property (reference: the copy that brought the element in); family F2o with an isolated stitching node present only in the '
+        'delegated models; the union built twice through the same handle; allocator health in the canonical state.',
  'C15': 'Signed operand vectors; augmented assignment on a second name for an operand; every non-zero field appears in the printout.',
- 'C16': 'Labels edited attribute by attribute after construction and then put on an element / a sliver; boot script boundary pinned '
-        '(1023 accepted, 1024 rejected); blob sizes around the limit in four text forms.',
+ 'C16': 'Labels edited attribute by attribute after construction and then put on an element / a sliver; labels, tags, delegations, pools and gateways edited through the update paths of an element; boot '
+        'script boundary pinned (1023 accepted, 1024 rejected); blob sizes around the limit in four text forms; names through every decode '
+        'path (from_dict, from_json, nested).',
  'C17': 'A SmartNIC described without its network service; equal user data in two spellings.',
- 'C18': 'One Labels object shared by all ports and caller objects left untouched; results of the instance catalogue edited by the '
+ 'C18': 'One Labels object shared by all ports, label lists with empty entries, caller objects left untouched; results of the instance catalogue edited by the '
         'caller; deviation bound 1 on the environment of the catalogue loaders (open fails, read fails, short read, then a retry).',
- 'C19': 'Merge policy maps of size 0, 1 and 2; well-formedness also for the harmless variants; record contents as an environment answer.',
+ 'C19': 'Merge policy maps of size 0, 1 and 2; well-formedness also for the harmless variants; record contents as an environment answer; variants per node class; every ordered pair of operations on '
+        'one driver object in a forked process (what the first leaves behind must not change the statements of the second).',
  'C20': 'Exception paths: for every operation of the lock model one execution per Python function entered while the lock is held, '
         'that entry failing (fimmc/faults.py). First use of a store by two threads (no instance yet). networkx.Graph.copy is scheduling-'
-        'point code, so copies made outside a critical section are not atomic. Sequential allocation probes in every reached state.',
+        'point code, so copies made outside a critical section are not atomic. Sequential allocation probes in every reached state. Scheduling-point code is chosen per harness; a third preemption '
+        'is explored in the thorough tier where the second bound finished under a fixed number of executions (completed bound per harness '
+        'in the evidence).',
 }
 for _c in CHECKS:
     if _c['property_id'] in ADDED:
